@@ -50,6 +50,9 @@ func (s *SPDX23) Serialize(bom *sbom.Document, _ *native.SerializeOptions, _ int
 	if bom.Metadata == nil {
 		return nil, errors.New("document metadata is nil, unable to serialize to SPDX 2.3")
 	}
+	if bom.NodeList == nil {
+		return nil, errors.New("document node list is nil, unable to serialize to SPDX 2.3")
+	}
 	doc := &spdx.Document{
 		SPDXVersion:       spdx.Version,
 		DataLicense:       spdx.DataLicense,
@@ -76,6 +79,9 @@ func (s *SPDX23) Serialize(bom *sbom.Document, _ *native.SerializeOptions, _ int
 	}
 
 	for _, t := range bom.Metadata.Tools {
+		if t == nil {
+			continue
+		}
 		// TODO(degradation): SPDX is prescriptive on how this field is structured
 		// it is a tool identifier word separated from the version with a dash.
 		// We should transform the field value
@@ -130,6 +136,9 @@ func (s *SPDX23) Serialize(bom *sbom.Document, _ *native.SerializeOptions, _ int
 func buildRelationships(bom *sbom.Document) ([]*spdx.Relationship, error) { //nolint:unparam
 	relationships := []*spdx.Relationship{}
 	for _, e := range bom.NodeList.Edges {
+		if e == nil {
+			continue
+		}
 		for _, dest := range e.To {
 			rel := spdx.Relationship{
 				RefA:         common.MakeDocElementID("", e.From),
@@ -146,7 +155,7 @@ func buildRelationships(bom *sbom.Document) ([]*spdx.Relationship, error) { //no
 func buildFiles(bom *sbom.Document) ([]*spdx.File, error) { //nolint:unparam
 	files := []*spdx.File{}
 	for _, node := range bom.NodeList.Nodes {
-		if node.Type == sbom.Node_PACKAGE {
+		if node == nil || node.Type == sbom.Node_PACKAGE {
 			continue
 		}
 
@@ -190,7 +199,7 @@ func buildFiles(bom *sbom.Document) ([]*spdx.File, error) { //nolint:unparam
 func (s *SPDX23) buildPackages(bom *sbom.Document) ([]*spdx.Package, error) { //nolint:unparam
 	packages := []*spdx.Package{}
 	for _, node := range bom.NodeList.Nodes {
-		if node.Type == sbom.Node_FILE {
+		if node == nil || node.Type == sbom.Node_FILE {
 			continue
 		}
 
@@ -312,6 +321,9 @@ func (s *SPDX23) buildPackages(bom *sbom.Document) ([]*spdx.Package, error) { //
 		}
 
 		for _, e := range node.ExternalReferences {
+			if e == nil {
+				continue
+			}
 			category := s.extRefCategoryFromProtobomExtRef(e)
 
 			if e.Url == "" {
@@ -334,7 +346,7 @@ func (s *SPDX23) buildPackages(bom *sbom.Document) ([]*spdx.Package, error) { //
 			})
 		}
 
-		if len(node.Suppliers) > 0 {
+		if len(node.Suppliers) > 0 && node.Suppliers[0] != nil {
 			// TODO(degradation): URL, Phone are lost if set
 			// TODO(degradation): If is more than one supplier, it will be lost
 			p.PackageSupplier = &spdx.Supplier{
@@ -343,7 +355,7 @@ func (s *SPDX23) buildPackages(bom *sbom.Document) ([]*spdx.Package, error) { //
 			}
 		}
 
-		if len(node.Originators) > 0 {
+		if len(node.Originators) > 0 && node.Originators[0] != nil {
 			// TODO(degradation): URL, Phone are lost if set
 			// TODO(degradation): If is more than one originator, it will be lost
 			p.PackageSupplier = &spdx.Supplier{
